@@ -109,6 +109,7 @@ class Registry:
 
 
 REG = Registry()
+DEFINE_SQRT_QUOTIENTS = [False]
 
 
 def new_registry():
@@ -435,6 +436,62 @@ def t_opaque(name, *args):
     return tm.app(name, list(args))
 
 
+def expand_quotients(t):
+    """replace every named quotient (see DEFINE_SQRT_QUOTIENTS) by its defining term."""
+    defs = getattr(REG, "quot_defs", None)
+    if not defs:
+        return t
+    for _ in range(8):
+        present = [v for v in tm.free_vars(t) if v in defs]
+        if not present:
+            return t
+        t = subst(t, {v: defs[v] for v in present})
+    return t
+
+
+def rebuild_app(name, args, sort="R"):
+    """re-create an atom through its constructor so that its defining axioms are registered."""
+    if name == "sqrt":
+        return t_sqrt(args[0])
+    if name == "exp":
+        return t_exp(args[0])
+    if name == "log":
+        return t_log(args[0])
+    if name == "softplus":
+        return t_softplus(args[0])
+    if name == "root":
+        return _root(args[0], int(args[1].args[0]))
+    if name == "atan":
+        return t_atan(args[0])
+    if name == "tan" and len(args) == 1:
+        return t_tan(args[0])
+    return tm.app(name, args, sort)
+
+
+def subst(t, mapping):
+    """term substitution that keeps the axioms of rebuilt atoms (tm.subst would drop them)."""
+    memo = {}
+
+    def go(u):
+        if u in mapping:
+            return mapping[u]
+        r = memo.get(u)
+        if r is not None:
+            return r
+        if u.op == "app":
+            r = rebuild_app(u.args[0], [go(a) if isinstance(a, T) else a for a in u.args[1:]], u.sort)
+        elif not tm.children(u):
+            r = u
+        else:
+            kids = tm.children(u)
+            sub = {k: go(k) for k in kids}
+            r = u if all(sub[k] is k for k in kids) else tm.subst(u, sub, {})
+        memo[u] = r
+        return r
+
+    return go(t)
+
+
 # ----------------------------------------------------------------------------------------------
 # scalars
 
@@ -613,6 +670,17 @@ class S:
         else:
             oblige("div", tm.not_(tm.eq0(b.t)), "divisor != 0")
         q = tm.div(a.t, b.t)
+        if DEFINE_SQRT_QUOTIENTS[0] and not (a.d or b.d) and b.t.op != "const" and any(x.args[0] == "sqrt" for x in tm.atoms(b.t)):
+            # name the quotient: rho * den == num.  Later terms are polynomial in rho instead of carrying
+            # the nested radical; sound (rho is exactly the quotient because den != 0 was just obliged).
+            key = ("quot", q)
+            rho = REG.memo.get(key)
+            if rho is None:
+                rho = tm.var("quot!%d" % len(REG.memo))
+                REG.memo[key] = rho
+                REG.quot_defs = getattr(REG, "quot_defs", {})
+                REG.quot_defs[rho] = q
+            return S(rho)
         d = None
         if a.d or b.d:
             inv = tm.power(b.t, -1)
